@@ -36,6 +36,10 @@ def compare_line(line, model):
         return []
     if "bad-op" in model:
         return [("bad-op", None, model["bad-op"])]
+    if line["op"] == "genfun" and impl["exc"] == "NameError" and '"nan"' in json.dumps(model.get("defs")):
+        # an earlier (guarded) division by zero left NaN in a location and an in-place operator baked it into a
+        # definition as a literal: the generated source names `nan`.  Outside C13 (division by zero) and C11 (finite constants)
+        return [("stop-history", None, None)]
     if line["op"] == "genfun" and impl["exc"] == "ZeroDivisionError":
         # C13 holds "provided no division by zero occurs": the generated code runs Python's unguarded
         # operators on plain containers; the rest of this history is outside the correspondence
